@@ -4,8 +4,8 @@ from common import *
 import decl, gen, pktcases, pktprops
 
 PID = 'C14'
-TARGETS = ['Properties/C14.vo', 'Bridge/DataBridge.vo', 'Bridge/MoveBridge.vo', 'Bridge/IntBridge.vo', 'Bridge/CodegenBridge.vo', 'Bridge/PlumbingBridge.vo']
-KERNELS = ['G8_data', 'G3_move', 'G4_seq', 'G6_int', 'G11_codegen', 'G17_builder']
+TARGETS = ['Properties/C14.vo', 'Bridge/DataBridge.vo', 'Bridge/MoveBridge.vo', 'Bridge/IntBridge.vo', 'Bridge/CodegenBridge.vo', 'Bridge/PlumbingBridge.vo', 'Bridge/ErrorsBridge.vo']
+KERNELS = ['G8_data', 'G3_move', 'G4_seq', 'G6_int', 'G11_codegen', 'G17_builder', 'G9_errors']
 PROP_FILE = 'Properties/C14.v'
 
 
@@ -174,6 +174,7 @@ def run(tier, seed, rng):
         failures.append(dict(kind='oracle', sig='context-prefix-move0', what='a packet with a move landing on its first byte parses differently at offset 0 and behind a prefix',
                              classes=pktprops.class_source(bgroups, r['group']), cls='K0', raw=b['raw'].hex(), raw_with_context=r['raw'].hex(),
                              offset=r['offset'], observed=view(r['outcome']), required=view(want)))
+    failures += pktprops.public_api_failures(groups, records)[:20]
     dist['regex_zoo_pairs'] = sum(1 for r in zrecs if r['offset'] != 0)
     for b, r, want in zfail[:20]:
         failures.append(dict(kind='oracle', sig='context-prefix-regex', what='a regex-delimited field parses differently depending on the bytes BEFORE the start offset',
